@@ -26,6 +26,7 @@ import (
 	"sync/atomic"
 
 	"github.com/jech/galene/group"
+	"github.com/jech/galene/token"
 	"github.com/jech/galene/webserver"
 )
 
@@ -44,7 +45,11 @@ func raceRun(e *eng, writers, rounds int) string {
 	os.WriteFile(filepath.Join(ddir, "config.json"), fx.confJSON(true, "root:p.r:admin"), 0600)
 	os.WriteFile(filepath.Join(gdir, "grpR.json"), fx.groupJSON(raceGroup), 0600)
 	group.Directory, group.DataDirectory = gdir, ddir
-	defer func() { group.Directory, group.DataDirectory = e.groups, e.data }()
+	token.SetStatefulFilename(filepath.Join(ddir, "var", "tokens.jsonl"))
+	defer func() {
+		group.Directory, group.DataDirectory = e.groups, e.data
+		token.SetStatefulFilename(filepath.Join(e.data, "var", "tokens.jsonl"))
+	}()
 
 	do := func(method, path, im string, body []byte) *http.Response {
 		r := httptest.NewRequest(method, "http://galene.example"+api+"/.groups/grpR"+path, bytes.NewReader(body))
@@ -62,13 +67,19 @@ func raceRun(e *eng, writers, rounds int) string {
 		}()
 		return rec.Result()
 	}
+	// a stateful token of the group, raced on in every third round (the tag covers the whole token file)
+	if st := do("PUT", "/.tokens/tokR", "", fx.bodyBytes("tok:present:usrTok:ok")).StatusCode; st/100 != 2 {
+		return fmt.Sprintf("env:token-fixture-%d", st)
+	}
 	descLen, permLen := 5, 0 // what the file should hold: description length, length of usrAna's permission list (0: "admin")
 	for round := 0; round < rounds; round++ {
 		// even rounds race on the description, odd rounds on the user usrAna of the same file; every
 		// written value is larger than any before, so the file size grows with every version
 		path := ""
-		if round%2 == 1 {
+		if round%3 == 1 {
 			path = "/.users/usrAna"
+		} else if round%3 == 2 {
+			path = "/.tokens/tokR"
 		}
 		tags := make([]string, writers)
 		status := make([]int, writers)
@@ -83,8 +94,11 @@ func raceRun(e *eng, writers, rounds int) string {
 				barrier.Wait()
 				n := 10 + round*writers + w
 				body := fx.bodyBytes(fmt.Sprintf("desc:%d:0", n))
-				if path != "" {
+				if path == "/.users/usrAna" {
 					body = fx.bodyBytes("user:[" + strings.Repeat("message+", n-1) + "message]")
+				} else if path != "" {
+					// every version of the token file has a size of its own (the username grows)
+					body = fx.bodyBytes("tok:present:usr" + strings.Repeat("T", n) + ":ok")
 				}
 				status[w] = do("PUT", path, tags[w], body).StatusCode
 			}(w)
@@ -101,11 +115,15 @@ func raceRun(e *eng, writers, rounds int) string {
 			}
 		}
 		if wins != 1 {
-			return fmt.Sprintf("bad:%d-writers-holding-the-same-tag-were-acknowledged", wins)
+			what := "definition"
+			if path == "/.tokens/tokR" {
+				what = "token"
+			}
+			return fmt.Sprintf("bad:%s:%d-writers-holding-the-same-tag-were-acknowledged", what, wins)
 		}
 		if path == "" {
 			descLen = 10 + round*writers + winner
-		} else {
+		} else if path == "/.users/usrAna" {
 			permLen = 10 + round*writers + winner
 		}
 		perm := "admin"
